@@ -205,4 +205,69 @@ def siteOf (a : Address) (bind : Bytes) (v : TLSVariant) : Site :=
 which aborts the load -/
 def directiveError (c : Site) : Bool := c.selfSigned && c.host.isEmpty
 
+/-! ## the same functions with the configured HTTP / HTTPS ports as a parameter
+
+`standardizeAddress`, `Address.String` and `InspectServerBlocks` read certmagic.HTTPPort / HTTPSPort (flags -http-port, -https-port);
+the functions above are these at the default ports `Ports.std` (see `standardizeAddressP_std` etc. in Proofs). -/
+
+def finishStandardizeP (P : Ports) (input scheme uhost path : Bytes) : Except AddrErr Address :=
+  let (host, port) := splitURLHost uhost
+  let port := if port.isEmpty then
+      (if scheme == b!"http" then P.http else if scheme == b!"https" then P.https else port)
+    else port
+  if (scheme == b!"http" && port == P.https) || (scheme == b!"https" && port == P.http) then .error .convention
+  else
+    let scheme := if scheme.isEmpty then
+        (if port == P.http then b!"http" else if port == P.https then b!"https" else scheme)
+      else scheme
+    .ok { original := input, scheme := scheme, host := host, port := port, path := path }
+
+def urlTextP (P : Ports) (input : Bytes) : Bytes :=
+  let str := replaceFirst input b!":https" (b!":" ++ P.https)
+  let str := replaceFirst str b!":http" (b!":" ++ P.http)
+  if !containsSub str b!"//" && !hasPrefix str b!"/" then b!"//" ++ str else str
+
+/-- standardizeAddress with configured ports -/
+def standardizeAddressP (P : Ports) (input : Bytes) : Except AddrErr Address :=
+  if !inAddrDomain input then .error .outOfModel
+  else
+    match urlParse (urlTextP P input) with
+    | none => .error .url
+    | some (scheme, uhost, path) => finishStandardizeP P input scheme uhost path
+
+/-- Address.String with configured ports: the missing scheme is inferred with the CONFIGURED HTTPS port, while the port is left
+out when it equals the CONSTANT DefaultHTTPSPort / DefaultHTTPPort (as the code does) -/
+def Address.stringP (P : Ports) (a : Address) : Bytes :=
+  if a.host.isEmpty && a.port.isEmpty then []
+  else
+    let scheme := if a.scheme.isEmpty then (if a.port == P.https then b!"https" else b!"http") else a.scheme
+    let s := scheme ++ b!"://"
+    let s := if !a.port.isEmpty &&
+        ((scheme == b!"https" && a.port != defaultHTTPSPort) || (scheme == b!"http" && a.port != defaultHTTPPort))
+      then s ++ joinHostPort a.host a.port else s ++ a.host
+    s ++ a.path
+
+def Address.siteStringP (P : Ports) (a : Address) : Bytes := a.filled.stringP P
+
+def normalizedAddrP (P : Ports) (k : Bytes) : Option Address :=
+  match standardizeAddressP P k with
+  | .ok a => some a.normalize
+  | .error _ => none
+
+def inspectGoP (P : Ports) : List Bytes → List Bytes → List Bytes → List Address → Except AddrErr (List Address)
+  | [], _, _, acc => .ok acc.reverse
+  | k :: rest, keys, addrs, acc =>
+    match standardizeAddressP P k with
+    | .error e => .error e
+    | .ok a =>
+      let a := a.normalize
+      let key := a.key
+      if keys.contains key then .error .dupKey
+      else
+        let s := a.siteStringP P
+        if addrs.contains s then .error .dupAddr
+        else inspectGoP P rest (key :: keys) (s :: addrs) (a :: acc)
+
+def inspectP (P : Ports) (ks : List Bytes) : Except AddrErr (List Address) := inspectGoP P ks [] [] []
+
 end Casket.AutoHTTPS
